@@ -312,6 +312,9 @@ def run(ctx):
     ev = dict(op="Background", index=[], bins=[], nrows=-1, pcdelta_len=-1)
     try:
         back, bins = prs.load_pcDelta_background()
+        only = prs.load_pcDelta_background(return_bins=False)
+        if not only.equals(back):
+            ev["nrows"] = -2                                  # the table alone must be the same table
         ev.update(index=[int(i) for i in back.index], bins=[int(b) for b in bins], nrows=int(len(back)),
                   pcdelta_len=int(len(prs.pcDelta(["CASSF", "CASSY", "CAWF"], bins=bins))))
     except Exception as e:      # noqa: BLE001
